@@ -17,7 +17,7 @@ for s in plan.steps: print('  ', s)
 steps = [tr.step(s) for s in plan.steps]
 lines = c08.HEADER + [f'Definition d := {sqlcoq.db_term(db, N)}.', f'Definition q := {qfull}.', f'Definition p := {sqlcoq.lst(steps)}.',
    'Eval vm_compute in snd (eval_top 40 d q).',
-   'Eval vm_compute in map snd (fold_left (fun res s => res ++ [exec_step 40 d res s]) p []).']
+   'Eval vm_compute in map snd (fold_left (fun res s => res ++ [exec_step 40 d res [] s]) p []).']
 open('/verif/.scratch/dbg.v', 'w').write('\n'.join(lines) + '\n')
 r = subprocess.run(['coqc', '-Q', '/verif/coq', 'MSV', '/verif/.scratch/dbg.v'], capture_output=True, text=True)
 print('sqlite:', c08.sqlite_rows(c08.strip_limit(sql), db))
